@@ -79,6 +79,13 @@ func decorate(r *rand.Rand, index int, s reconlib.Scenario) reconlib.Scenario {
 		s.SlowLog, s.SlowLogMs = "Succeeded in resuming upstream", 10000
 	}
 	if r.Intn(4) == 0 {
+		// an ack timeout is configured (1.5 s, far above the 0.4 s the keepalive needs to notice an outage) and the broker
+		// acknowledges promptly: only an outage delays acks, and an outage is not an ack timeout
+		s.Ups[0].AckTimeoutMs = 1500
+		s.AckHoldMod = 0
+		s.Faults[0].DialDelayMs = 3000
+	}
+	if r.Intn(4) == 0 {
 		s.CloseFails = "broken" // closing a transport whose link is already broken reports an error
 	}
 	return s
@@ -157,7 +164,7 @@ func judge(o *reconlib.Outcome) vrun.Result {
 func TestC02NoLoss(t *testing.T) {
 	e := vrun.LoadEnv()
 	meta := vrun.Meta{Property: "C02", Workload: "TestC02NoLoss", Total: e.Pick(250, 60000),
-		Rule: "virtual time: one reliable upstream (immediate or size flush, 3-12 chunks before the first failure, writes continuing during and after every outage) plus 0-2 bystander upstreams of any QoS; the broker withholds the acks of every 2nd/3rd chunk (or none) until recovery, so a chosen subset is unacknowledged at each failure; 1-3 transport failures at message boundaries (before/after the n-th chunk, ack, ping, pong) in 4 failure modes, redial instant/1ms/3s/after dial errors, resume conflicts 0/1/3, optionally a further cut right after the resume response or at the n-th retransmitted chunk; library-default sent storage in 2 of 3 cases; in a third of the cases the application's logger blocks 0.3-10 s at one step of the reconnect / resume procedure. Oracle over the union of chunks the broker received on all link incarnations: per sequence number one content, per point one sequence number, every accepted point present with its payload hash (unless the stream was reported closed: exempt, counted separately), close totals = written. non-trivial = a fault fired and the stream was not exempt; distinct = (storage, ack withholding, stream mix, fault positions)",
+		Rule: "virtual time: one reliable upstream (immediate or size flush, 3-12 chunks before the first failure, writes continuing during and after every outage) plus 0-2 bystander upstreams of any QoS; the broker withholds the acks of every 2nd/3rd chunk (or none) until recovery, so a chosen subset is unacknowledged at each failure; 1-3 transport failures at message boundaries (before/after the n-th chunk, ack, ping, pong) in 4 failure modes, redial instant/1ms/3s/after dial errors, resume conflicts 0/1/3, optionally a further cut right after the resume response or at the n-th retransmitted chunk; library-default sent storage in 2 of 3 cases; in a quarter of the cases an ack timeout of 1.5 s is configured, acks are prompt and the first redial takes 3 s; in a third of the cases the application's logger blocks 0.3-10 s at one step of the reconnect / resume procedure. Oracle over the union of chunks the broker received on all link incarnations: per sequence number one content, per point one sequence number, every accepted point present with its payload hash (unless the stream was reported closed: exempt, counted separately), close totals = written. non-trivial = a fault fired and the stream was not exempt; distinct = (storage, ack withholding, stream mix, fault positions)",
 		Assumptions: []string{"bounded progress: all obligations must be met after a cooperative broker has acknowledged everything and 20 further virtual seconds have passed",
 			"'received by the broker' is judged at the broker side of the transport for messages whose transport Write returned nil"}}
 	vrun.Loop(t, meta, 0, func(c *vrun.Case) vrun.Result {
